@@ -63,6 +63,28 @@ FullP(sid, p, v) == Phys(sid, Iota(p), [ab \in (1..p) \X (1..p) |-> v])
 DiagP(sid, p, v) ==
     Phys(sid, Iota(p), [ab \in (1..p) \X (1..p) |-> IF ab[1] = ab[2] THEN v ELSE "Z"])
 
+(* one-way and sparse patterns (the zeros are the predefined zero handle):  *)
+(* isolator a -> b only; 3-port circulator 1 -> 2 -> 3 -> 1; 3-port        *)
+(* coupler-like standard whose ports 2 and 3 see each other only through   *)
+(* port 1; n-port standards whose couplings form a path (chain), a star,   *)
+(* or two separate pairs                                                   *)
+IsoP(sid, a, b, v) ==
+    Phys(sid, <<a, b>>, [ab \in {a, b} \X {a, b} |-> IF ab = <<a, b>> THEN "Z" ELSE v])
+CircP(sid, v) ==
+    Phys(sid, <<1, 2, 3>>,
+         [ab \in (1..3) \X (1..3) |->
+            IF ab[1] = ab[2] \/ ab \in {<<2, 1>>, <<3, 2>>, <<1, 3>>} THEN v ELSE "Z"])
+CouplerP(sid, v) ==
+    Phys(sid, <<1, 2, 3>>,
+         [ab \in (1..3) \X (1..3) |-> IF ab \in {<<2, 3>>, <<3, 2>>} THEN "Z" ELSE v])
+LinkedP(sid, p, links, v) ==
+    Phys(sid, Iota(p),
+         [ab \in (1..p) \X (1..p) |->
+            IF ab[1] = ab[2] \/ {ab[1], ab[2]} \in links THEN v ELSE "Z"])
+ChainP(sid, path, v) ==
+    LinkedP(sid, Len(path), {{path[i], path[i + 1]} : i \in 1..(Len(path) - 1)}, v)
+StarP(sid, p, ctr, v) == LinkedP(sid, p, {{ctr, x} : x \in (1..p) \ {ctr}}, v)
+
 IsDiagonal(ph) == \A ab \in DOMAIN ph.cells : ab[1] # ab[2] => ph.cells[ab] = "Z"
 IsThrough(ph) ==
     /\ Len(ph.ports) = 2
@@ -164,11 +186,20 @@ Recipe(t, r, c, ps) ==
         sub3 == IF p >= 4
                 THEN <<Phys(350, <<1, 3, 4>>, [ab \in {1, 3, 4} \X {1, 3, 4} |-> lk])>>
                 ELSE <<>>
+        oneway == (IF p >= 2 THEN <<IsoP(500, 1, 2, lk)>> ELSE <<>>)
+                  \o (IF p >= 3 THEN <<IsoP(501, 2, 3, lk), CircP(510, lk), CouplerP(511, lk)>>
+                      ELSE <<>>)
+        sparse == IF p >= 4
+                  THEN <<ChainP(520, <<1, 4, 3, 2>>, lk), ChainP(521, <<1, 2, 3, 4>>, lk),
+                         ChainP(522, <<2, 4, 1, 3>>, lk), StarP(523, p, 3, lk),
+                         LinkedP(524, p, {{1, 3}, {2, 4}}, lk)>>
+                  ELSE <<>>
         fulls == IF p >= 2
                  THEN [k \in 1..(IF Is16(t) THEN K16(t, r, c) ELSE IF p >= 3 THEN 1 ELSE 0) |->
                          FullP(300 + k, p, lk)]
                  ELSE <<>>
-    IN singles \o doubles \o extra1 \o thrus \o lines \o alld \o sub3 \o fulls
+    IN singles \o doubles \o extra1 \o thrus \o lines \o alld \o sub3 \o oneway
+       \o sparse \o fulls
 
 (* ---- refused standards ---- *)
 RefusedCandidates(t, r, c) ==
@@ -230,12 +261,15 @@ Life(t, r, c, nf, form, rel, k, adds, pi) ==
      pi |-> pi]
 
 Op(name) == [op |-> name]
-Apply(d) == [op |-> "apply", dut |-> d]
+Apply(d) == [op |-> "apply", dut |-> d, mode |-> 0]
+(* the device measured at some of the calibration frequencies only:        *)
+(* 1 first / middle / last, 2 the last one, 3 one in the middle            *)
+ApplyAt(d, mode) == [op |-> "apply", dut |-> d, mode |-> mode]
 
 LegalDims(t) == {rc \in (1..MaxDim) \X (1..MaxDim) : DimsOK(t, rc[1], rc[2])}
 
-NfOf(v)   == <<1, 2, 5>>[(v % 3) + 1]
-FormOf(v) == IF (v \div 3) % 2 = 0 THEN "m" ELSE "ab"
+NfOf(v)   == <<1, 2, 5, 10>>[(v % 4) + 1]
+FormOf(v) == IF (v \div 4) % 2 = 0 THEN "m" ELSE "ab"
 PsOf(v)   == (v \div 2) % 4
 
 Name(tag, t, r, c, v) ==
@@ -253,7 +287,11 @@ C01Row(t, r, c, v) ==
     IN [name |-> Name("c01", t, r, c, v),
         steps |-> <<Life(t, r, c, NfOf(v), FormOf(v), "none", 0, all, <<>>)>>
                   \o all
-                  \o <<Op("solve"), Op("addcal"), Apply(v), Op("saveeq")>>
+                  \o <<Op("solve"), Op("addcal"), Apply(v)>>
+                  \o (IF NfOf(v) >= 3
+                      THEN <<ApplyAt(v + 1, 1), ApplyAt(v + 2, 2), ApplyAt(v + 3, 3)>>
+                      ELSE <<>>)
+                  \o <<Op("saveeq")>>
                   \* last: a standard the manual does not classify
                   \o (IF uns = <<>> THEN <<>> ELSE <<uns[(v % Len(uns)) + 1]>>)]
 
@@ -384,11 +422,50 @@ C17Row(t, r, c, rel, v) ==
         steps |-> Run(t, r, c, nf1, form, "none", 0, a1, <<>>, <<>>, d)
                   \o life2 \o <<[op |-> "compare", rel |-> rel]>>]
 
+(* four-port calibrations (their recipes hold the sparse multi-port        *)
+(* standards) are part of the quick table for two types with leakage terms *)
+C17SparseRows(u) ==
+    IF MaxDim >= 4 THEN {}
+    ELSE {C17Row(t, 4, 4, "renumber", v) : t \in {"TE10", "UE14"}, v \in {0, 1}}
+         \cup {C17Row(t, 4, 4, "entry", 0) : t \in {"TE10", "UE14"}}
+
+(* The same calls in a fresh vnacal_t and in one that already holds an     *)
+(* unrelated calibration made from thirteen scalar parameters.  The        *)
+(* calibration under test creates many scalar parameters of its own, all   *)
+(* its reflects / throughs / lines come with abbreviated matrices, and the *)
+(* leakage cells are observed by the last standard only: matches on all    *)
+(* ports, entered as a mapped matrix with explicit zeros.                  *)
+HashAdds(t, r, c) ==
+    LET p == Ports(r, c)
+        pairs == PairSeq(p)
+        ab(ph) == AddStep(ph, EpOptions(ph)[1], ph.ports, FALSE,
+                          Len(ph.ports), Len(ph.ports))
+    IN Concat([a \in 1..p |-> [j \in 1..3 |-> ab(ReflP(10 * a + j, a, "P"))]])
+       \o [i \in 1..Len(pairs) |->
+             ab(ThruP(100 + 10 * pairs[i][1] + pairs[i][2], pairs[i][1], pairs[i][2]))]
+       \o [i \in 1..Len(pairs) |->
+             ab(LineP(200 + 10 * pairs[i][1] + pairs[i][2], pairs[i][1], pairs[i][2], "P"))]
+       \o <<AddStep(DiagP(400, p, "Z"), "mapped", Iota(p), TRUE, r, c)>>
+
+C17HashRow(t, n, nf, form) ==
+    LET adds == TLCEval(HashAdds(t, n, n))
+        tail == <<Op("solve"), Op("addcal"), Apply(1)>>
+    IN [name |-> Name("c17-unrelated-first-" \o form, t, n, n, nf),
+        steps |-> <<Life(t, n, n, nf, form, "none", 0, adds, <<>>)>> \o adds \o tail
+                  \o <<Life(t, n, n, nf, form, "unrelated", 0, adds, <<>>),
+                       [op |-> "unrelated", n |-> 13]>> \o adds \o tail
+                  \o <<[op |-> "compare", rel |-> "unrelated"]>>]
+
+C17HashRows(u) ==
+    {C17HashRow(t, n, 1 + (n % 2) * 2, IF n = 2 THEN "m" ELSE "ab") :
+        t \in {"TE10", "UE10", "UE14", "E12"}, n \in 2..(IF MaxDim < 3 THEN MaxDim ELSE 3)}
+
 C17Table(u) ==
     UNION {{C17Row(x[1], x[2], x[3], rel, v) : rel \in C17Rels(x[1], x[2], x[3]),
                                                v \in 0..(NVar - 1)} :
            x \in {y \in Types \X (1..MaxDim) \X (1..MaxDim) :
                      DimsOK(y[1], y[2], y[3]) /\ ApplyAccepts(y[2], y[3])}}
+    \cup C17SparseRows(u) \cup C17HashRows(u)
 
 -----------------------------------------------------------------------------
 (* C20: the standard list of a (type, dims) and its sub-sequences          *)
@@ -403,7 +480,8 @@ C20List(t, r, c) ==
        ELSE <<DiagP(401, p, "S"), DiagP(402, p, "O"), DiagP(403, p, "Z")>>
             \o [i \in 1..Len(pairs) |->
                   ThruP(100 + 10 * pairs[i][1] + pairs[i][2], pairs[i][1], pairs[i][2])]
-            \o <<LineP(212, 1, 2, "P"), ReflP(11, 1, "S"), ReflP(p * 10 + 2, p, "O")>>
+            \o <<LineP(212, 1, 2, "P"), ReflP(11, 1, "S")>>
+            \o (IF p >= 3 THEN <<CouplerP(511, "P")>> ELSE <<ReflP(p * 10 + 2, p, "O")>>)
 
 RECURSIVE Fact(_)
 Fact(n) == IF n <= 1 THEN 1 ELSE n * Fact(n - 1)
